@@ -33,7 +33,7 @@ TIERS = {
 
 OP_BUDGET = 60_000     # traced line events per operation; the largest legitimate operation of this workload needs < 5000
 FORBIDDEN_KEYS = ['items', 'keys', 'update', 'clear', 'pop', 'ayns', 'values', 'get', 'copy', 'setdefault']
-GOOD_KEYS = ['a', 'b', 'c', 'k1', 'x_y', 'Z9', '12', 0, 1, 7, '_u', '_children']
+GOOD_KEYS = ['a', 'b', 'c', 'k1', 'x_y', 'Z9', '12', 0, 1, 7, '_u', '_children', -1, -2]
 
 
 class Violation(Exception):
@@ -592,6 +592,11 @@ def op_delattr(w, real, mod, op, fk):
 
     def model():
         del mod[k]
+    if isinstance(k, str) and k.startswith('_'):
+        # 'del node._x' is about a Python attribute of the object, not (by Python's rules) about the entry '_x':
+        # whatever the library decides, both views must still agree afterwards
+        fk.append('underscore_attribute')
+        return lib, (lambda: None), 'resync'
     return lib, model
 
 
@@ -975,8 +980,8 @@ def _build_machine(max_steps):
             if isinstance(node, dict) and node and ks % 4:
                 key = list(node.keys())[ks % len(node)]
             name = {'item': 'delitem', 'attr': 'delattr', 'child': 'remove_child', 'pop': 'pop', 'pop_default': 'pop', 'node': 'remove_node'}[how]
-            if name == 'delattr' and (not isinstance(key, str) or key.startswith('_')):
-                name = 'delitem'
+            if name == 'delattr' and (not isinstance(key, str) or key == '_children'):
+                name = 'delitem'       # (deleting the attribute the node keeps its children in is not a container operation)
             op = {'op': name, 'at': at, 'key': key}
             if how == 'pop_default':
                 op['default'] = True
